@@ -282,7 +282,39 @@ func (p *Program) XML() string {
 		fmt.Fprintf(&sb, `<bpmn:message id="%s" name="%s"/>`+"\n", s, s)
 	}
 	sb.WriteString("</bpmn:definitions>\n")
-	return sb.String()
+	return withPrefix(sb.String(), NSPrefix(p.DeclSeed))
+}
+
+// NSPrefix is the prefix the document binds the BPMN model namespace to. It
+// is derived from the declaration seed so that every campaign that varies the
+// declaration order also varies the prefix: mostly "bpmn", sometimes another
+// one modellers use ("bpmn2", "semantic"), sometimes none (default namespace).
+func NSPrefix(declSeed int) string {
+	switch declSeed % 7 {
+	case 4:
+		return "bpmn2"
+	case 5:
+		return "semantic"
+	case 6:
+		return ""
+	}
+	return "bpmn"
+}
+
+func withPrefix(doc, prefix string) string {
+	switch prefix {
+	case "bpmn":
+		return doc
+	case "":
+		doc = strings.ReplaceAll(doc, "xmlns:bpmn=", "xmlns=")
+		doc = strings.ReplaceAll(doc, "<bpmn:", "<")
+		doc = strings.ReplaceAll(doc, "</bpmn:", "</")
+		return strings.ReplaceAll(doc, `"bpmn:tFormalExpression"`, `"tFormalExpression"`)
+	}
+	doc = strings.ReplaceAll(doc, "xmlns:bpmn=", "xmlns:"+prefix+"=")
+	doc = strings.ReplaceAll(doc, "<bpmn:", "<"+prefix+":")
+	doc = strings.ReplaceAll(doc, "</bpmn:", "</"+prefix+":")
+	return strings.ReplaceAll(doc, `"bpmn:tFormalExpression"`, `"`+prefix+`:tFormalExpression"`)
 }
 
 func sortedKeys(m map[string]bool) []string {
